@@ -1,8 +1,19 @@
 // ===== inc/attrset_vocab.rs : StunAttributes (stun-agent message.rs) and its abstract view
 //@item! stun_agent :: mod message > struct StunAttributes
 pub open spec fn is_trailer_ty(t: u16) -> bool { t == TY_MESSAGE_INTEGRITY || t == TY_MESSAGE_INTEGRITY_SHA256 || t == TY_FINGERPRINT }
+#[verifier::opaque]
 pub open spec fn distinct_types(s: Seq<StunAttribute>) -> bool {
     forall|i: int, j: int| 0 <= i < j < s.len() ==> s[i].ty() != s[j].ty()
+}
+#[verifier::opaque]
+pub open spec fn seq_index_of(s: Seq<StunAttribute>, t: u16) -> Option<int> {
+    if exists|i: int| 0 <= i < s.len() && s[i].ty() == t {
+        Some(choose|i: int| 0 <= i < s.len() && s[i].ty() == t)
+    } else { None }
+}
+// `s` without its attribute of type t (the others keep their order)
+pub open spec fn seq_without(s: Seq<StunAttribute>, t: u16) -> Seq<StunAttribute> {
+    match seq_index_of(s, t) { Some(i) => s.remove(i), None => s }
 }
 pub open spec fn opt_seq(o: Option<StunAttribute>) -> Seq<StunAttribute> {
     match o { Some(a) => seq![a], None => Seq::<StunAttribute>::empty() }
@@ -20,9 +31,5 @@ impl StunAttributes {
     pub open spec fn flat(&self) -> Seq<StunAttribute> {
         self.attributes@ + opt_seq(self.integrity) + opt_seq(self.integrity_sha256) + opt_seq(self.fingerprint)
     }
-    pub open spec fn index_of(&self, t: u16) -> Option<int> {
-        if exists|i: int| 0 <= i < self.attributes@.len() && self.attributes@[i].ty() == t {
-            Some(choose|i: int| 0 <= i < self.attributes@.len() && self.attributes@[i].ty() == t)
-        } else { None }
-    }
+    pub open spec fn index_of(&self, t: u16) -> Option<int> { seq_index_of(self.attributes@, t) }
 }
